@@ -377,7 +377,13 @@ def _fam_lscr_nested(n):
     lnam = lc.build_lnam([b"test", b"x"])
     return "lscr", lc.build_lscr([dict(name=0, args=[], locals=[1], code=b"\x41\x01" + b"\x09" * n + b"\x52\x00\x01")]), {"lnam": lnam.hex()}
 
-FAMILIES_SCALING = dict(lscr_nested=(_fam_lscr_nested, 100), riff=(_fam_riff, 300), mmap=(_fam_mmap, 300), cas=(_fam_cas, 2000), key=(_fam_key, 500), locate=(_fam_locate, 500),
+def _fam_vwlb_zigzag(n):
+    # n markers whose label offsets alternate between 0 and the pool size: every second label is the whole pool
+    P = 4 * n
+    recs = b"".join(struct.pack(">hH", i, 0 if i % 2 == 0 else P) for i in range(n + 1))
+    return "vwlb", struct.pack(">h", n) + recs + bytes(65 + (i % 26) for i in range(P)), {}
+
+FAMILIES_SCALING = dict(vwlb_zigzag=(_fam_vwlb_zigzag, 1500), lscr_nested=(_fam_lscr_nested, 100), riff=(_fam_riff, 300), mmap=(_fam_mmap, 300), cas=(_fam_cas, 2000), key=(_fam_key, 500), locate=(_fam_locate, 500),
                         lscr_straight=(_fam_lscr_straight, 250), lscr_loops=(_fam_lscr_loops, 120), lscr_ifs=(_fam_lscr_ifs, 150))
 SCALING_MAX_RATIO = 2.6      # doubling the input may at most (a bit more than) double the executed lines
 
@@ -551,7 +557,7 @@ def impl(case):
         m1 = measure(name, data, aux)
         m2 = measure(name, bytes.fromhex(sp["hex2"]), aux)
         return [canon(dict(outcome=m1["outcome"] if m1["outcome"] == m2["outcome"] else m1["outcome"] + "/" + m2["outcome"],
-                           lines=m1["lines"], lines2=m2["lines"], peak=m2["peak"], secs=m2["secs"]))]
+                           lines=m1["lines"], lines2=m2["lines"], peak1=m1["peak"], peak=m2["peak"], secs=m2["secs"]))]
     m = measure(name, data, aux)
     case_out = canon(m)
     if len(case["lines"]) == 2:
@@ -582,6 +588,9 @@ def oracle(case, io):
         r = m["lines2"] / max(1, m["lines"])
         if r > SCALING_MAX_RATIO:
             return f"scaling family {sp['family']}: doubling the input ({sp['n']} -> {sp['n2']} bytes) multiplies executed lines by {r:.2f} ({m['lines']} -> {m['lines2']}): work is not bounded by a fixed multiple of the input length"
+        rp = m["peak"] / max(1, m.get("peak1", m["peak"]))
+        if m["peak"] > (2 << 20) and rp > SCALING_MAX_RATIO + 0.4:
+            return f"scaling family {sp['family']}: doubling the input ({sp['n']} -> {sp['n2']} bytes) multiplies peak allocation by {rp:.2f} ({m.get('peak1')} -> {m['peak']} bytes): memory is not bounded by a fixed multiple of the input length"
         return None
     dec = declared(sp["decoder"], bytes.fromhex("" if sp["hex"] == "-" else sp["hex"]), sp["aux"])
     if m["outcome"] == "recursion" and n >= 400:
